@@ -1,38 +1,38 @@
 """Texts for MANIFEST.json (level_claimed / level_note / technique) per property."""
-NOTE = ("Trusted base: CPython's ast parser; vt's own CFG / dataflow / normaliser / guard evaluator (validated by break and preserve "
+NOTE = ("Trusted base: CPython's ast parser; vt's own CFG / dataflow / call-graph / normaliser / guard evaluator (validated by break and preserve "
         "variants in the thorough tier); frozen reference tables (IANA registry copy, RFC layouts, KDF labels) transcribed by hand; "
         "behaviour of cryptography, scapy, dpkt and argparse. Decides only the structural clauses named in level_claimed.text; "
-        "value-level arithmetic inside library calls is not decided.")
+        "value-level arithmetic inside library calls and equality of exported bytes over all inputs are not decided.")
 
-TEXTS = {
-    "C14": {
-        "category": "other",
-        "level_text": "Decides the whole statement given the structurally confirmed semantics of the 12-line resolver loop: all table rows are "
-                      "compared with an independent registry copy (T1), every name is resolved from the literal ordered sub-tables under the "
-                      "first-match semantics read off the source and compared with an independent name grammar (T2), all other code points are "
-                      "rejected by the exact-key lookup argument, and every producible bulk class has a decryptor class and block size (T3a). "
-                      "Obligations are enumerated and discharged one by one (proof-like), reported as 'other' because the loop semantics are "
-                      "confirmed by shape, not by a verified interpreter.",
-        "level_note": NOTE,
-        "technique": "AST table extraction + structural confirmation of resolver loop semantics + comparison with independent registry/name grammar",
-    },
+TECH = {
+    "C01": "per-direction cipher-state pairing on the CFG, mirror comparison of direction arms, dispatch decision table by finite-domain guard evaluation, symbolic-cursor hello layouts, payload provenance slices",
+    "C02": "datagram-grouping path conditions, producer/consumer key-dictionary agreement, AAD layout tables, header-protection constants, mirror arms, epoch rule",
+    "C03": "interprocedural exception-escape analysis (may-raise sites × try coverage over the resolved call graph), loop-progress analysis, fail-closed gate dominance, payload provenance",
+    "C04": "state-ownership analysis of flow classes, 4-tuple orientation predicates, client-random-dominated secret selection, non-empty connection-ID match",
+    "C05": "CFG dominance/pairing rules on the reassembly state machine, loop-progress and loop-replay lemma, sibling-function mirror comparison",
+    "C06": "frame-provenance of everything reaching the writer, TCP conversation typestate and seq/ack def-use ordering, telescoping split of records",
+    "C07": "timestamp/address provenance slices without arithmetic, canonical overlap test, orientation mirrors",
+    "C08": "causality / append-only / left-fold argument discharged as structural obligations (single in-order pass, append-only channels, whole-record release, per-record fault containment)",
+    "C09": "regex AST analysis (re._parser) of the key-log pattern against consumer label literals, ingestion-pipeline def-use and call-graph reachability, argparse option model",
+    "C10": "argparse option model, control dependence of every port rewrite on the -m flag, interprocedural provenance of flag and port map",
+    "C11": "fold-guard constant reasoning, pseudo-header layout tables, object-variant attribute definedness, dominance of dispatch by the checksum verdict",
+    "C12": "byte-order pairing of conditional expressions, tsresol constants, dominance of block consumption over type dispatch",
+    "C13": "control-dependence effect set of the metadata switch (edge dominance on the CFG), provenance of the switch",
+    "C14": "AST table extraction + structural confirmation of resolver loop semantics + comparison with independent registry / name grammar",
+    "C15": "KDF call-site table (labels, lengths, hash, secret role), telescoping key-block slices by polynomial normal form, argument-role agreement at wiring call sites",
+    "C16": "forward substitution to a decision tree and normal-form equality with RFC 9000 A.3; integer-exactness lint; space-map table check",
+    "C17": "symbolic-cursor layout extraction per frame class vs RFC 9000 §19 table, registry completeness, progress ≥ 1 byte per frame, varint decoder shape",
+    "C18": "nondeterminism-source inventory over the call graph from run(), set-iteration order sensitivity, module-state re-initialisation dominance",
 }
 
+LEVEL_SUFFIX = (" Level 'other': static decision of the listed structural clauses (each a necessary condition of the property, evaluated on all paths of the "
+                "source), not of the behavioural statement as a whole.")
+
+
+def texts_for(pid, explanation):
+    return {"category": "other", "level_text": explanation + LEVEL_SUFFIX, "level_note": NOTE, "technique": TECH[pid]}
+
+
 NOT_APPLICABLE = {}
-NOT_APPLICABLE['C01'] = 'framework under construction: rules for this property are not committed yet (temporary entry)'
-NOT_APPLICABLE['C02'] = 'framework under construction: rules for this property are not committed yet (temporary entry)'
-NOT_APPLICABLE['C03'] = 'framework under construction: rules for this property are not committed yet (temporary entry)'
-NOT_APPLICABLE['C04'] = 'framework under construction: rules for this property are not committed yet (temporary entry)'
-NOT_APPLICABLE['C05'] = 'framework under construction: rules for this property are not committed yet (temporary entry)'
-NOT_APPLICABLE['C06'] = 'framework under construction: rules for this property are not committed yet (temporary entry)'
-NOT_APPLICABLE['C07'] = 'framework under construction: rules for this property are not committed yet (temporary entry)'
-NOT_APPLICABLE['C08'] = 'framework under construction: rules for this property are not committed yet (temporary entry)'
-NOT_APPLICABLE['C09'] = 'framework under construction: rules for this property are not committed yet (temporary entry)'
-NOT_APPLICABLE['C10'] = 'framework under construction: rules for this property are not committed yet (temporary entry)'
-NOT_APPLICABLE['C11'] = 'framework under construction: rules for this property are not committed yet (temporary entry)'
-NOT_APPLICABLE['C12'] = 'framework under construction: rules for this property are not committed yet (temporary entry)'
-NOT_APPLICABLE['C13'] = 'framework under construction: rules for this property are not committed yet (temporary entry)'
-NOT_APPLICABLE['C15'] = 'framework under construction: rules for this property are not committed yet (temporary entry)'
-NOT_APPLICABLE['C16'] = 'framework under construction: rules for this property are not committed yet (temporary entry)'
-NOT_APPLICABLE['C17'] = 'framework under construction: rules for this property are not committed yet (temporary entry)'
-NOT_APPLICABLE['C18'] = 'framework under construction: rules for this property are not committed yet (temporary entry)'
+for _p in ("C01", "C02", "C03", "C04", "C06", "C07", "C08", "C15", "C17"):
+    NOT_APPLICABLE[_p] = "framework under construction: rules for this property are not committed yet (temporary entry, will be claimed)"
